@@ -15,7 +15,7 @@ use std::time::Duration;
 use trippy_core::{CompletionReason, FlowId, Round, TimeToLive, Tracer};
 use trippy_dns::{AsInfo, DnsEntry, DnsResolver, Resolved};
 use trippy_privilege::Privilege;
-use trippy_tui::verif::{build_config, make_tui_config, AddressMode, Args, ConfigFile, GeoIpLookup, TraceInfo, TuiApp};
+use trippy_tui::verif::{build_config, make_tui_config, Args, ConfigFile, GeoIpLookup, TraceInfo, TuiApp};
 
 #[derive(Clone, Copy, Debug, PartialEq, Eq, Hash, Serialize, Deserialize)]
 pub enum Cmd {
